@@ -32,7 +32,35 @@ func TestVerif_C02_Exact(t *testing.T) {
 		}
 		rd := newStream(c.Stream)
 		// how the bytes arrive is not the signer's business: short reads and runs of empty reads (0, nil) are what an io.Reader may do
-		switch gen.Pick(t, "delivery", "whole", "whole", "whole", "short-reads", "empties") {
+		switch gen.Pick(t, "delivery", "whole", "whole", "whole", "short-reads", "empties", "re-entrant", "re-entrant") {
+		case "re-entrant":
+			// a source that itself USES the library while it is being read (an entropy daemon that signs its health report, a
+			// deterministic generator keyed by a signature): between two chunks of the outer call's nonce another SignHashed /
+			// GenerateKey / VerifyHashed runs to completion on the same goroutine. The outer call must not notice.
+			rd.chunk = []int{0, 7, 16, 31}[gen.Uniform(t, "rechunk", 0, 3)]
+			nk := new(big.Int).SetBytes(gen.RandBytes(gen.Rand(t, "nestedkey"), 40))
+			nk.Mod(nk, sm2gen.NM2).Add(nk, big.NewInt(1))
+			nst := gen.RandBytes(gen.Rand(t, "nestedstream"), 96)
+			nst[0] &= 0x7f
+			which := gen.Uniform(t, "nested-op", 0, 2)
+			every := gen.Uniform(t, "nested-every", 1, 3)
+			npx, npy, _ := sm2gen.Pub(nk)
+			rd.nested = func(read int) {
+				if read%every != 0 {
+					return
+				}
+				switch which {
+				case 0:
+					sm2.SignHashed(bytes.NewReader(nst), gen.Pad32(nk), c.E)
+				case 1:
+					sm2.GenerateKey(bytes.NewReader(nst))
+				default:
+					rr, ss, err := sm2.SignHashed(bytes.NewReader(nst), gen.Pad32(nk), c.E)
+					if err == nil {
+						sm2.VerifyHashed(npx, npy, c.E, rr, ss)
+					}
+				}
+			}
 		case "short-reads":
 			rd.chunk = gen.Uniform(t, "chunk", 1, 31)
 		case "empties":
